@@ -848,3 +848,237 @@ Proof.
   unfold parse_meta_lines. rewrite fold_left_app.
   destruct (fold_left _ A (Ok m)) as [m1|e]; [reflexivity|]. apply parse_meta_lines_err.
 Qed.
+
+(* ================================================================================================ *)
+(* 14. the written file as a list of lines                                                          *)
+(* ================================================================================================ *)
+Definition count_texts (i : oinst) : list text :=
+  [ lit "# NUMBER ALTERNATIVES:" ++ 32%N :: show_N (num_alternatives (o_meta i));
+    lit "# NUMBER VOTERS:" ++ 32%N :: show_N (num_voters (o_meta i));
+    lit "# NUMBER UNIQUE ORDERS:" ++ 32%N :: show_N (o_num_unique i) ].
+
+Definition header_texts (i : oinst) : list text :=
+  meta_lines (o_meta i) ++ count_texts i ++ alt_name_lines (alt_names (o_meta i)).
+
+Definition file_lines (i : oinst) : list text := header_texts i ++ map ballot_text (ballots i).
+
+Lemma unlines_app a b : unlines (a ++ b) = unlines a ++ unlines b.
+Proof. apply flat_map_app. Qed.
+
+Lemma count_lines_texts i : count_lines i = unlines (count_texts i).
+Proof.
+  unfold count_lines, unlines, count_texts. cbn [flat_map lit].
+  repeat (rewrite <- ?app_assoc; cbn [app]). reflexivity.
+Qed.
+
+Lemma ballot_lines_texts B : flat_map ballot_line B = unlines (map ballot_text B).
+Proof.
+  induction B as [|b r IH]; [reflexivity|]. cbn [flat_map map unlines]. fold (unlines (map ballot_text r)).
+  now rewrite IH, ballot_line_text.
+Qed.
+
+Theorem ord_write_lines i : ord_write i = unlines (file_lines i).
+Proof.
+  unfold ord_write, file_lines, header_texts. rewrite !unlines_app.
+  rewrite write_metadata_lines, count_lines_texts, write_alt_names_lines, ballot_lines_texts.
+  now rewrite <- !app_assoc.
+Qed.
+
+(* ---- every header line is a '#' line; only the third count line is the unique-orders line ---- *)
+Ltac kv_side Hv := rewrite strip_kv; [reflexivity|discriminate|reflexivity|exact Hv].
+
+Lemma meta_lines_hash m : wf_fields m -> Forall is_hash (meta_lines m).
+Proof.
+  intros (H1 & H2 & H3 & H4 & H5 & H6 & H7 & H8 & H9). unfold meta_lines, is_hash.
+  repeat constructor; [kv_side (proj1 H1)|kv_side (proj1 H2)|kv_side (proj1 H3)|kv_side (proj1 H4)
+    |kv_side (proj1 H5)|kv_side (proj1 H6)|kv_side (proj1 H7)|kv_side (proj1 H8)|kv_side (proj1 H9)].
+Qed.
+
+Lemma meta_lines_not_nuo m : wf_fields m -> Forall not_nuo (meta_lines m).
+Proof.
+  intros (H1 & H2 & H3 & H4 & H5 & H6 & H7 & H8 & H9). unfold meta_lines, not_nuo.
+  repeat constructor; [kv_side (proj1 H1)|kv_side (proj1 H2)|kv_side (proj1 H3)|kv_side (proj1 H4)
+    |kv_side (proj1 H5)|kv_side (proj1 H6)|kv_side (proj1 H7)|kv_side (proj1 H8)|kv_side (proj1 H9)].
+Qed.
+
+Lemma count_texts_hash i : Forall is_hash (count_texts i).
+Proof.
+  unfold count_texts, is_hash. repeat constructor; kv_side (strip_show_N (num_alternatives (o_meta i)))
+   || kv_side (strip_show_N (num_voters (o_meta i))) || kv_side (strip_show_N (o_num_unique i)).
+Qed.
+
+Lemma name_lines_hash d : Forall (fun p => wf_field (snd p)) d -> Forall is_hash (alt_name_lines d).
+Proof.
+  induction 1 as [|[a nm] r [Hv _] Hr IH]; [constructor|]. constructor; [|exact IH].
+  unfold is_hash. cbn [fst snd] in *. rewrite strip_name_line; [reflexivity|reflexivity|exact Hv].
+Qed.
+
+Lemma name_lines_not_nuo d : Forall (fun p => wf_field (snd p)) d -> Forall not_nuo (alt_name_lines d).
+Proof.
+  induction 1 as [|[a nm] r [Hv _] Hr IH]; [constructor|]. constructor; [|exact IH].
+  unfold not_nuo. cbn [fst snd] in *. rewrite strip_name_line; [reflexivity|reflexivity|exact Hv].
+Qed.
+
+Lemma ballot_text_not_hash b : startswith hash (strip (ballot_text b)) = false.
+Proof.
+  destruct b as [o k]. unfold ballot_text. cbn [fst snd].
+  pose proof (show_N_nonempty k) as NE. pose proof (show_N_digits k) as D.
+  destruct (show_N k) as [|c r]; [easy|]. cbn [forallb] in D. apply andb_true_iff in D as [Dc _].
+  cbn [app]. destruct (strip_head c (r ++ lit ": " ++ order_str o) (digit_not_space c Dc)) as [r' E].
+  rewrite E. change hash with [35%N]. cbn [startswith].
+  unfold is_digit in Dc. apply andb_true_iff in Dc as [A _]. apply N.leb_le in A.
+  destruct (N.eqb_spec 35 c); [lia|reflexivity].
+Qed.
+
+(* ---- the state after the header ---- *)
+Lemma header_step_nuo au m nu n :
+  header_step au (m, nu) (strip (lit "# NUMBER UNIQUE ORDERS:" ++ 32%N :: show_N n)) = Ok (m, n).
+Proof.
+  rewrite strip_kv; [|discriminate|reflexivity|apply strip_show_N]. rewrite spv_show_N.
+  unfold header_step. cbn -[py_int show_N]. now rewrite py_int_sp_show_N.
+Qed.
+
+Lemma header_step_meta au m nu l : not_nuo l ->
+  header_step au (m, nu) (strip l) = rmap (fun m' => (m', nu)) (parse_metadata au m (strip l)).
+Proof. unfold not_nuo, header_step. now intros ->. Qed.
+
+Definition parsed_meta (m m0 : meta) : meta :=
+  set_alt_names (set_num_voters (set_num_alternatives (copy_fields m m0) (num_alternatives m)) (num_voters m))
+                (set_all (alt_names m) (alt_names m0)).
+
+Lemma hfold_counts au i m nu :
+  hfold au (m, nu) (count_texts i) =
+  Ok (set_num_voters (set_num_alternatives m (num_alternatives (o_meta i))) (num_voters (o_meta i)), o_num_unique i).
+Proof.
+  unfold count_texts, hfold, hfold_r. cbn [fold_left rbind].
+  rewrite header_step_meta by (unfold not_nuo; kv_side (strip_show_N (num_alternatives (o_meta i)))).
+  rewrite parse_line_num_alternatives. cbn [rmap rbind].
+  rewrite header_step_meta by (unfold not_nuo; kv_side (strip_show_N (num_voters (o_meta i)))).
+  rewrite parse_line_num_voters. cbn [rmap rbind].
+  now rewrite header_step_nuo.
+Qed.
+
+Theorem hfold_header i m0 nu0 :
+  wf_fields (o_meta i) -> Forall (fun p => wf_field (snd p)) (alt_names (o_meta i)) ->
+  hfold false (m0, nu0) (header_texts i) = Ok (parsed_meta (o_meta i) m0, o_num_unique i).
+Proof.
+  intros Hf Hn. unfold header_texts. rewrite hfold_app.
+  rewrite hfold_meta by (now apply meta_lines_not_nuo). rewrite metadata_roundtrip by exact Hf. cbn [rmap rbind].
+  rewrite hfold_app, hfold_counts. cbn [rbind].
+  rewrite hfold_meta by (now apply name_lines_not_nuo). rewrite alt_names_roundtrip by exact Hn.
+  reflexivity.
+Qed.
+
+(* ================================================================================================ *)
+(* 15. C01_roundtrip                                                                                *)
+(* ================================================================================================ *)
+Lemma parsed_meta_id m m0 :
+  NoDup (keys (alt_names m)) -> reserved m = [] -> alt_names m0 = [] -> reserved m0 = [] ->
+  parsed_meta m m0 = m.
+Proof.
+  intros Hn Hr A0 R0. unfold parsed_meta. rewrite A0. rewrite set_all_fresh by exact Hn.
+  destruct m, m0. cbn in *. subst. reflexivity.
+Qed.
+
+Lemma ballots_nonempty i : o_orders i <> [] -> ballots i <> [].
+Proof.
+  intros H E. pose proof (keys_ballots_perm i) as P. rewrite E in P. cbn in P.
+  apply Permutation_nil in P. contradiction.
+Qed.
+
+Lemma ballots_classes i :
+  Forall (fun o => Forall (fun c => c <> []) o) (o_orders i) ->
+  Forall (fun b => Forall (fun c => c <> []) (fst b)) (ballots i).
+Proof.
+  intros H. apply Forall_forall. intros b Hb. rewrite Forall_forall in H. apply H.
+  apply (Permutation_in _ (keys_ballots_perm i)). unfold keys. now apply in_map.
+Qed.
+
+Lemma ballots_keys_nodup i : NoDup (o_orders i) -> NoDup (keys (ballots i)).
+Proof. intros H. apply (Permutation_NoDup (Permutation_sym (keys_ballots_perm i)) H). Qed.
+
+Theorem roundtrip_lines i m0 :
+  wf_ord_P i -> alt_names m0 = [] -> reserved m0 = [] ->
+  ord_parse false false m0 (file_lines i) = Ok (sorted_view i).
+Proof.
+  intros W A0 R0. destruct W as [Wf [Wn1 Wn2] Wr Ws Wc Wm Wk Wd].
+  unfold ord_parse, file_lines.
+  pose proof (ballots_nonempty i Ws) as NE. destruct (ballots i) as [|b B'] eqn:EB; [easy|].
+  cbn [map].
+  rewrite (header_loop_app false (header_texts i) (m0, 0%N) (parsed_meta (o_meta i) m0, o_num_unique i)).
+  - cbn [rbind]. change (ballot_text b :: map ballot_text B') with (map ballot_text (b :: B')).
+    rewrite <- EB. rewrite ballot_loop_texts.
+    + cbn [rbind app]. rewrite parsed_meta_id by assumption. reflexivity.
+    + now apply ballots_classes.
+    + cbn [keys map app]. now apply ballots_keys_nodup.
+  - unfold header_texts. rewrite !Forall_app. split; [now apply meta_lines_hash|]. split; [apply count_texts_hash|].
+    now apply name_lines_hash.
+  - now apply hfold_header.
+  - apply ballot_text_not_hash.
+Qed.
+
+Lemma file_lines_no_break i : wf_ord_P i -> forallb no_break (file_lines i) = true.
+Proof.
+  intros W. destruct W as [Wf [Wn1 Wn2] Wr Ws Wc Wm Wk Wd].
+  unfold file_lines, header_texts. rewrite !forallb_app.
+  rewrite meta_lines_no_break by exact Wf. rewrite alt_name_lines_no_break by exact Wn1.
+  cbn [andb]. rewrite andb_true_r. apply andb_true_iff. split.
+  - unfold count_texts. cbn [forallb]. unfold no_break. rewrite !forallb_app. cbn [forallb lit].
+    assert (Dg : forall n, forallb (fun c => negb (is_linebreak c)) (show_N n) = true).
+    { intros n. pose proof (show_N_digits n) as Hd. rewrite forallb_forall in *. intros c Hc.
+      specialize (Hd c Hc). unfold is_digit in Hd. apply andb_true_iff in Hd as [A B].
+      apply N.leb_le in A. apply N.leb_le in B. unfold is_linebreak.
+      repeat match goal with
+      | |- context [(?a <=? c)%N] => destruct (N.leb_spec a c); try lia
+      | |- context [(c <=? ?a)%N] => destruct (N.leb_spec c a); try lia
+      | |- context [(c =? ?a)%N] => destruct (N.eqb_spec c a); try lia
+      end; reflexivity. }
+    rewrite !Dg. reflexivity.
+  - apply forallb_forall. intros l Hl. apply in_map_iff in Hl as [b [<- _]].
+    (* a ballot line consists of digits, ':', ' ', ',', '{', '}' *)
+    assert (Dg : forall n, no_break (show_N n) = true).
+    { intros n. unfold no_break. pose proof (show_N_digits n) as Hd. rewrite forallb_forall in *. intros c Hc.
+      specialize (Hd c Hc). unfold is_digit in Hd. apply andb_true_iff in Hd as [A B].
+      apply N.leb_le in A. apply N.leb_le in B. unfold is_linebreak.
+      repeat match goal with
+      | |- context [(?a <=? c)%N] => destruct (N.leb_spec a c); try lia
+      | |- context [(c <=? ?a)%N] => destruct (N.leb_spec c a); try lia
+      | |- context [(c =? ?a)%N] => destruct (N.eqb_spec c a); try lia
+      end; reflexivity. }
+    assert (Jn : forall c, no_break (join comma_sp (map show_N c)) = true).
+    { induction c as [|a r IH]; [reflexivity|]. destruct r as [|a' r'].
+      - cbn. apply Dg.
+      - change (join comma_sp (map show_N (a :: a' :: r'))) with (show_N a ++ comma_sp ++ join comma_sp (map show_N (a' :: r'))).
+        unfold no_break in *. rewrite !forallb_app. rewrite (Dg a), IH. reflexivity. }
+    assert (Bd : forall c, no_break (body c) = true).
+    { intros c. assert (Br : no_break (lit "{" ++ join comma_sp (map show_N c) ++ lit "}") = true).
+      { unfold no_break in *. rewrite !forallb_app. rewrite (Jn c). reflexivity. }
+      destruct c as [|a [|a' r]]; [exact Br|apply Dg|exact Br]. }
+    assert (Os : forall o, no_break (join comma_sp (map body o)) = true).
+    { induction o as [|c r IH]; [reflexivity|]. destruct r as [|c' r'].
+      - cbn. apply Bd.
+      - change (join comma_sp (map body (c :: c' :: r'))) with (body c ++ comma_sp ++ join comma_sp (map body (c' :: r'))).
+        unfold no_break in *. rewrite !forallb_app. rewrite (Bd c), IH. reflexivity. }
+    unfold ballot_text. rewrite order_str_join. unfold no_break in *. rewrite !forallb_app.
+    rewrite (Dg (snd b)), (Os (fst b)). reflexivity.
+Qed.
+
+(* through the file (readlines, parse_file) ... *)
+Theorem roundtrip_readlines i m0 :
+  wf_ord_P i -> alt_names m0 = [] -> reserved m0 = [] ->
+  ord_parse false false m0 (readlines (ord_write i)) = Ok (sorted_view i).
+Proof.
+  intros W A0 R0. rewrite ord_write_lines, readlines_unlines.
+  - rewrite ord_parse_nl. now apply roundtrip_lines.
+  - apply forallb_no_nlcr. now apply file_lines_no_break.
+Qed.
+
+(* ... and through a string (splitlines, parse_str) *)
+Theorem roundtrip_splitlines i m0 :
+  wf_ord_P i -> alt_names m0 = [] -> reserved m0 = [] ->
+  ord_parse false false m0 (splitlines (ord_write i)) = Ok (sorted_view i).
+Proof.
+  intros W A0 R0. rewrite ord_write_lines, splitlines_unlines.
+  - now apply roundtrip_lines.
+  - now apply file_lines_no_break.
+Qed.
